@@ -165,7 +165,7 @@ theorem tryRightSteal_preserves {t h : Nat} {es es' : List Elt} {cs cs' : List N
         · have := hs.2; simp only [Occ] at this ⊢; omega
         · have := hr.2; simp only [Occ] at this ⊢; omega
         · rw [flat_node_split2 _ _ _ _ _ _ _ hcl', flat_node_split2 _ _ _ _ _ _ _ hcl', h5]
-        · rw [kidAt_at hcl', h3]
+        · rw [kidAt_at hcl', kidAt_at hcl', h3]
   · rw [tryRightSteal_none_of_short t es cs li hlt] at hst
     simp at hst
 
@@ -218,7 +218,7 @@ theorem ins_leaf_spec (t : Nat) (io : Bool) (f : Nat) (es : List Elt) (e : Elt) 
   rcases search_cases e.1 hs with ⟨el, er, rfl, hl, hr, hres⟩ | ⟨el, e0, er, rfl, h0, hl, hr, hres⟩
   · simp only [hres, Bool.false_eq_true, if_false, insAt_at rfl]
     exact ⟨by simp, by simp [insSorted_gap hl hr], by simp [lookup_none_of_gap hl hr], by simp [Node.elts],
-      by simp [Node.elts]⟩
+      by simp [Node.elts] <;> omega⟩
   · simp only [hres, if_true, setAt_at rfl, eltAt_at rfl]
     refine ⟨by simp, by simp [insSorted_found hl h0], ?_, by simp [Node.elts], by simp [Node.elts]⟩
     simp only [flat_leaf]
@@ -261,12 +261,15 @@ theorem ins_descend_spec {t h : Nat} {el er : List Elt} {cl cr : List Node} {c c
   have hocc := (hk.2 c (by simp)).2
   refine ⟨?_, ?_, ?_, by simp [Node.elts], by simp [Node.elts]⟩
   · refine shape_node_iff.mpr (kids_replace1 hk ⟨hc.shape, ?_⟩)
-    have := hc.len_lo; have := hc.len_hi
+    have h1 : c.elts.length ≤ c'.elts.length := hc.len_lo
+    have h2 : c'.elts.length ≤ c.elts.length + 1 := hc.len_hi
     simp only [Occ] at hocc ⊢; omega
   · show flat (.node (el ++ er) (cl ++ c' :: cr)) = _
-    rw [flat_node_split el er cl c' cr hcl, flat_node_split el er cl c cr hcl, hc.flat_eq,
+    have hfl : flat c' = insSorted e (flat c) := hc.flat_eq
+    rw [flat_node_split el er cl c' cr hcl, flat_node_split el er cl c cr hcl, hfl,
       insSorted_window hA hB]
   · show old = _
-    rw [flat_node_split el er cl c cr hcl, lookup_window hA hB, hc.ret]
+    have hret : old = lookup (flat c) e.1 := hc.ret
+    rw [flat_node_split el er cl c cr hcl, lookup_window hA hB, hret]
 
 end Model.BTree
